@@ -5,7 +5,9 @@
 package nbhttp
 
 import (
+	"errors"
 	"fmt"
+	"net"
 	"net/http"
 	"net/url"
 	"strconv"
@@ -300,14 +302,22 @@ func (p *ServerProcessor) flushResponse(parser *Parser, res *Response) {
 			res.checkChunked()
 			res.eoncodeHead()
 			if err := res.flush(conn); err != nil {
-				_ = conn.Close()
+				// a connection that is closing already (after the response to
+				// an earlier request) still has that response to send.
+				if !errors.Is(err, net.ErrClosed) {
+					_ = conn.Close()
+				}
 				releaseRequest(req, engine.RetainHTTPBody)
 				releaseResponse(res)
 				return
 			}
 			if req.Close {
 				// the data may still in the send queue
-				_ = conn.Close()
+				if c, ok := conn.(interface{ CloseAfterFlush() error }); ok {
+					_ = c.CloseAfterFlush()
+				} else {
+					_ = conn.Close()
+				}
 			} else if parser.ParserCloser == nil {
 				_ = conn.SetReadDeadline(time.Now().Add(engine.KeepaliveTime))
 			}
